@@ -11,6 +11,7 @@ CONSTANTS
   PREC = 100
   UNBOND = 1
   HOLDOPS = {"o1"}
+  HOOKED = TRUE
   AMOUNTS = {1,2,3}
   NONCES = {1,2}
   FRESH = TRUE
